@@ -86,6 +86,9 @@ func agwpe.(frame).WriteTo(f, w) (n, err)
 # any reader, any segmentation: exactly DataLen bytes are read in full
 func agwpe.(*frame).ReadFrom(f, r) (n, err)
   props C13
+  # a frame header from the TNC must not make the host allocate without bound (DataLen is 32 bits).
+  # KNOWN FINDING: it does - 4 GiB for DataLen 0xFFFFFFFF (and a slice panic on 32-bit targets)
+  allocbound 1048576
   call io.ReadFull requires whole-data: same($1, f.Data) && len(f.Data) == f.DataLen
 
 func agwpe.(*header).ReadFrom(h, r) (n, err)
@@ -392,6 +395,10 @@ func agwpe.newConn(p, dstCall, via) (c)
   props C13
   requires port: p != nil && PortOK(p)
   ensures conn: c != nil && c.p == p && c.demux != nil && same(c.srcCall, p.mycall) && same(c.dstCall, dstCall) && same(c.via, via) && !c.inbound && !c.closing && len(c.rest) == 0
+  # "frames for other ports or stations are not delivered": the filter must name both ends of the
+  # link.  KNOWN FINDING: it names the peer only (any frame to or from the peer matches, whoever
+  # the other station is)
+  call agwpe.(*demux).Chain requires filter-names-both-ends-of-the-link: !iszero($1.call) && !iszero($1.to)
   call agwpe.(*demux).Chain requires only-this-peers-frames: $1.call == agwpe.callsignFromString(dstCall) && $1.port == nil && iszero($1.to) && len($1.kinds) == 0
   call agwpe.(*demux).Frames requires connected-data-frames: len($2.kinds) == 1 && $2.port == nil && iszero($2.call) && iszero($2.to) && $1 >= 1
   at store#3 requires connected-data-kind: $0 == kindConnectedData
@@ -433,6 +440,10 @@ func agwpe.(*Port).handleInbound$1() ()
   call agwpe.(*demux).Frames requires addressed-to-this-station: $2.to == agwpe.callsignFromString(p.mycall) && $2.port == nil && iszero($2.call)
   call bytes.HasPrefix set gInboundBanner := $r0
   call agwpe.newConn requires only-remote-initiated-connects: gInboundBanner && $0 == p
+  # the connection's data subscription is created here, after the connect frame was dispatched: a
+  # data frame that follows the connect frame directly finds no subscriber and is discarded.
+  # KNOWN FINDING (identified at the hand-over that follows; same class as ardop defect 31)
+  at select requires data-subscription-exists-before-the-connect-frame-is-dispatched: false
   at store#4 requires marked-inbound: $0 == true
 
 # dialling: only the three AX.25 schemes, target and digipeaters of the URL; a failed connect
